@@ -158,6 +158,9 @@ pub struct ModelKnobs {
     /// restrict patterns to the low-code-point core alphabet (daachorse's charwise builder
     /// allocates tables proportional to the largest code point; that matters under Miri)
     pub core_only: bool,
+    /// serialisation stress: weights at the varint size thresholds and i32 extremes, long
+    /// comments, empty tag strings. Such models are never used for prediction (scores overflow).
+    pub extreme_values: bool,
     pub allow_big_windows: bool,
     pub max_entries: usize,
     pub want_tags: Option<bool>,
@@ -165,7 +168,7 @@ pub struct ModelKnobs {
 
 impl Default for ModelKnobs {
     fn default() -> Self {
-        Self { max_window: 4, max_type_window: 12, core_only: false, allow_big_windows: true, max_entries: 8, want_tags: None }
+        Self { max_window: 4, max_type_window: 12, core_only: false, extreme_values: false, allow_big_windows: true, max_entries: 8, want_tags: None }
     }
 }
 
@@ -356,6 +359,50 @@ pub fn gen_model(rng: &mut Rng, k: &ModelKnobs) -> MModel {
             let bias: Vec<i32> = (0..need).map(|i| sign * (i as i32 * 7 - 5) + rng.irange(-2, 2)).collect();
             m.tag_models.push(MTagModel { token: tok.to_string(), tags, char_ngram_model: vec![], type_ngram_model: vec![], bias });
         }
+    }
+    if k.extreme_values {
+        const EDGE: [i32; 14] = [i32::MIN, i32::MAX, -1, 0, 125, 126, -126, 250, 251, -32768, 65535, 65536, -65537, 1 << 30];
+        let tweak = |w: &mut Vec<i32>, rng: &mut Rng| {
+            for x in w.iter_mut() {
+                if rng.chance(1, 3) {
+                    *x = *rng.pick(&EDGE);
+                }
+            }
+        };
+        for d in m.char_ngram_model.iter_mut() {
+            tweak(&mut d.weights, rng);
+        }
+        for d in m.type_ngram_model.iter_mut() {
+            tweak(&mut d.weights, rng);
+        }
+        for d in m.dict_model.iter_mut() {
+            tweak(&mut d.weights, rng);
+            if rng.chance(1, 4) {
+                let n = rng.range(240, 300);
+                d.comment = (0..n).map(|_| *rng.pick(gen::CORE)).collect();
+            }
+        }
+        for t in m.tag_models.iter_mut() {
+            for c in t.tags.iter_mut() {
+                if rng.chance(1, 4) && !c.contains(&String::new()) {
+                    c.push(String::new());
+                }
+            }
+            let need: usize = t.tags.iter().map(|c| if c.len() >= 2 { c.len() } else { 0 }).sum();
+            t.bias.resize(need, -1);
+            tweak(&mut t.bias, rng);
+            for d in t.char_ngram_model.iter_mut() {
+                for w in d.weights.iter_mut() {
+                    w.weights.resize(need, -1);
+                }
+            }
+            for d in t.type_ngram_model.iter_mut() {
+                for w in d.weights.iter_mut() {
+                    w.weights.resize(need, 1 << 20);
+                }
+            }
+        }
+        m.bias = *rng.pick(&EDGE);
     }
     m
 }
